@@ -33,8 +33,9 @@ type DFile struct {
 // DLayer is one layer of a Docker-format image.
 type DLayer struct {
 	Files  []DFile `json:"files"`
-	Comp   string  `json:"comp"`    // none | gzip | zstd (how the layer stream is stored in the archive)
-	SameAs int     `json:"same_as"` // >= 0: byte-identical duplicate of that earlier layer of the same image
+	Comp   string  `json:"comp"`            // none | gzip | zstd (how the layer stream is stored in the archive)
+	SameAs int     `json:"same_as"`         // >= 0: byte-identical duplicate of that earlier layer of the same image
+	Split  []int   `json:"split,omitempty"` // Comp gzip: stored as len+1 gzip members cut at these offsets of the tar stream (mod length+1)
 }
 
 // DImage is one image of the archive.
@@ -73,14 +74,10 @@ func layerTar(files []DFile) []byte {
 	return buf.Bytes()
 }
 
-func compress(b []byte, comp string) []byte {
+func compress(b []byte, comp string, split []int) []byte {
 	switch comp {
 	case "gzip":
-		var buf bytes.Buffer
-		zw := gzip.NewWriter(&buf)
-		_, _ = zw.Write(b)
-		_ = zw.Close()
-		return buf.Bytes()
+		return gzipMembers(b, split)
 	case "zstd":
 		var buf bytes.Buffer
 		zw, _ := zstd.NewWriter(&buf)
@@ -143,7 +140,7 @@ func (dc DockerCase) build() built {
 			l := im.resolve(i)
 			u := layerTar(l.Files)
 			uncompressed = append(uncompressed, u)
-			stored = append(stored, compress(u, l.Comp))
+			stored = append(stored, compress(u, l.Comp, l.Split))
 			diffIDs = append(diffIDs, fmt.Sprintf("%q", rm.Digest("sha256", u)))
 		}
 		cfg := []byte(fmt.Sprintf(`{"architecture":"amd64","os":"linux","config":{"Env":["SEED=%d","IMG=%d"],"Cmd":["/bin/true"]},"created":"2024-01-02T03:04:05Z","history":[{"created":"2024-01-02T03:04:05Z","created_by":"c09"}],"rootfs":{"type":"layers","diff_ids":[%s]}}`,
